@@ -42,9 +42,15 @@ static uint tryLocker(void*)
   results[vf_thread_id()] = ok;
   return 0;
 }
+// Mutex objects with static storage duration: one constructed before every other static object of the program (the order between
+// translation units is unspecified, so the library must not depend on its own statics being ready), one in the default order
+static Mutex s_earlyMutex __attribute__((init_priority(101)));
+static Mutex s_staticMutex;
 static void scenMutex(int variant)
 {
-  Mutex m; g_mutex = &m; occupancy = maxOccupancy = 0;
+  Mutex local;
+  Mutex& m = variant == 4 ? s_earlyMutex : variant == 5 ? s_staticMutex : local;
+  g_mutex = &m; occupancy = maxOccupancy = 0;
   if(!m.tryLock()) vf_failf("C11:mutex:tryLock-free", "tryLock on a free mutex failed");
   else m.unlock();
   Thread a, b, c;
@@ -53,6 +59,7 @@ static void scenMutex(int variant)
   case 0: a.start(contender, 0); b.start(contender, 0); c.start(contender, 0); break;
   case 1: a.start(recursiveOwner, 0); b.start(contender, 0); break;
   case 2: a.start(contender, 0); b.start(tryLocker, 0); c.start(tryLocker, 0); break;
+  case 4: case 5: a.start(recursiveOwner, 0); b.start(tryLocker, 0); break;
   default: a.start(contenderTwice, 0); b.start(contenderTwice, 0); break;
   }
   a.join(); b.join(); c.join();
@@ -291,7 +298,7 @@ static void scenDeadline(int variant)
 }
 
 struct Scen { const char* name; void (*fn)(int); int variants; };
-static const Scen SCEN[] = {{"mutex", scenMutex, 4}, {"semaphore", scenSemaphore, 4}, {"signal", scenSignal, 5}, {"monitor", scenMonitor, 6}, {"thread", scenThread, 4}, {"deadline", scenDeadline, 54}};
+static const Scen SCEN[] = {{"mutex", scenMutex, 6}, {"semaphore", scenSemaphore, 4}, {"signal", scenSignal, 5}, {"monitor", scenMonitor, 6}, {"thread", scenThread, 4}, {"deadline", scenDeadline, 54}};
 extern "C" int vf_scenario_count(void) { return (int)(sizeof(SCEN) / sizeof(*SCEN)); }
 extern "C" const char* vf_scenario_name(int id) { return SCEN[id].name; }
 extern "C" int vf_scenario_variants(int id) { return SCEN[id].variants; }
